@@ -47,20 +47,23 @@ Theorem C10_gumbel_hard_at_perturbed_argmax : forall g, Gpos g -> Gincr g -> for
   gumbel_softmax g T true a noise = onehot (length a) (argmax (addn a noise)).
 Proof. exact gumbel_hard_at_perturbed_argmax. Qed.
 
-(* THE INVARIANT over all op sequences.  `covered c k` = MPS selector (any update semantics), or the
-   repaired combiner; `wf` = positive temperature, non-empty tie-free columns; `wf_op` = the same for the
-   values an op installs.  all_forwards_ok: for EVERY forward pass in the sequence that runs with sampling
-   enabled, post_ok holds for the theta_alpha it leaves:
+(* THE INVARIANT over all op sequences.  `wf` = positive temperature, non-empty tie-free columns; `wf_op` =
+   the same for the values an op installs.  all_forwards_ok: for EVERY forward pass in the sequence that
+   runs with sampling enabled (disabled = false) and inside `covered c k s`, i.e.
+       k = KMps  \/  comb_eval_argmax c = true  \/  training s = true  \/  hard s = true
+   (everything except the SuperNet combiner of the pinned code in eval mode with soft selection: open
+   finding, refuted below), post_ok holds for the theta_alpha it leaves:
      - every column is a probability vector,
      - not training, or hard and not Gumbel  ->  theta = one-hot at argmax alpha (per column),
      - hard -> every column is a one-hot (Gumbel in training included). *)
-Theorem C10_invariant_all_sequences : forall g, Gpos g -> Gincr g -> forall c k, covered c k ->
-  forall ops s, wf s -> Forall wf_op ops -> all_forwards_ok g c k s ops.
+Theorem C10_invariant_all_sequences : forall g, Gpos g -> Gincr g -> forall c k ops s,
+  wf s -> Forall wf_op ops -> all_forwards_ok g c k s ops.
 Proof. exact invariant_all_sequences. Qed.
 
-Theorem C10_invariant_after_run : forall g, Gpos g -> Gincr g -> forall c k ops s s1 noise s2, covered c k ->
+Theorem C10_invariant_after_run : forall g, Gpos g -> Gincr g -> forall c k ops s s1 noise s2,
   wf s -> Forall wf_op ops -> run g c k s ops = Some s1 -> step g c k s1 (SForward noise) = Some s2 ->
   disabled s1 = false ->
+  (k = KMps \/ comb_eval_argmax c = true \/ training s1 = true \/ hard s1 = true) ->
   Forall (fun v => Forall (fun x => 0 <= x) v /\ qsum v == 1) (theta s2) /\
   ((training s1 = false \/ (hard s1 = true /\ gumbel s1 = false)) ->
      theta s2 = map (fun a => onehot (length a) (argmax a)) (alpha s1)) /\
@@ -73,14 +76,14 @@ Theorem C10_combiner_never_disabled : forall g c ops s s', disabled s = false ->
 Proof. exact comb_never_disabled. Qed.
 
 (* summary()/export() pick `selected alpha` = arg-max of the raw coefficients of every column; without
-   Gumbel noise that is where the largest evaluated coefficient is ... *)
-Theorem C10_selected_is_argmax : forall g, Gpos g -> Gincr g -> forall c k s noise, covered c k -> wf s ->
+   Gumbel noise that is where the largest evaluated coefficient is (also for the pinned combiner) ... *)
+Theorem C10_selected_is_argmax : forall g, Gpos g -> Gincr g -> forall c k s noise, wf s ->
   disabled s = false -> (gumbel s = false \/ training s = false) ->
   map argmax (sample g c k s noise) = selected (alpha s).
 Proof. exact selected_is_argmax. Qed.
 
 (* ... and in eval mode / hard non-Gumbel training the evaluated coefficients are exactly its one-hot *)
-Theorem C10_selected_onehot : forall g, Gpos g -> Gincr g -> forall c k s noise, covered c k -> wf s ->
+Theorem C10_selected_onehot : forall g, Gpos g -> Gincr g -> forall c k s noise, covered c k s -> wf s ->
   disabled s = false -> (training s = false \/ (hard s = true /\ gumbel s = false)) ->
   sample g c k s noise = map (fun col => onehot (length col) (argmax col)) (alpha s) /\
   selected (alpha s) = map argmax (alpha s).
@@ -91,10 +94,11 @@ Theorem C10_onehot_mix : forall n k fs, length fs = n -> dot (onehot n k) fs == 
 Proof. exact onehot_mix. Qed.
 
 (* --- where the unchanged code violates the property (witnesses inside the proofs) *)
-(* pinned upstream SuperNetCombiner (comb_eval_argmax = false): eval mode + soft selection = mixture.
-   Repaired in /repo (fix: commit, KNOWN_FINDINGS.json); the theorems above cover the repaired combiner. *)
-Theorem C10_combiner_upstream_eval_soft_refuted : forall g, Gpos g -> exists s noise,
-  wf s /\ disabled s = false /\ training s = false /\ ~ post_ok s (sample g (mkCfg false false) KComb s noise).
+(* pinned SuperNetCombiner (comb_eval_argmax = false): eval mode + soft selection evaluates a mixture
+   (open finding; the one-line repair breaks an unedited unit test, see KNOWN_FINDINGS.json) *)
+Theorem C10_combiner_eval_soft_refuted : forall g, Gpos g -> exists s noise,
+  wf s /\ disabled s = false /\ training s = false /\ hard s = false /\
+  ~ post_ok s (sample g (mkCfg false false) KComb s noise).
 Proof. exact comb_upstream_eval_soft_refuted. Qed.
 
 (* disable_sampling=True (open finding): a forward pass leaves the stale coefficients, also in eval mode;
@@ -121,8 +125,8 @@ Example C10_example_sequence :
   let ops := [SUpdate (Some (1#2)) (Some true) (Some true) None; SForward [[0; 5; 0]; []];
               SOptStep [[0; 1; 2]; [5; 4; 3]]; SUpdate None (Some false) None None; SEval; SForward []] in
   wf s0 /\ Forall wf_op ops /\
-  option_map theta (run gsur (mkCfg false true) KMps s0 ops) = Some [[0; 0; 1]; [1; 0; 0]] /\
-  option_map theta (run gsur (mkCfg false true) KMps s0 (firstn 2 ops)) = Some [[0; 1; 0]; [1; 0; 0]].
+  option_map theta (run gsur (mkCfg false false) KMps s0 ops) = Some [[0; 0; 1]; [1; 0; 0]] /\
+  option_map theta (run gsur (mkCfg false false) KMps s0 (firstn 2 ops)) = Some [[0; 1; 0]; [1; 0; 0]].
 Proof.
   cbv zeta. split; [|split; [|split; vm_compute; reflexivity]].
   - split; [reflexivity|]. repeat constructor; try discriminate; cbv; discriminate.
@@ -142,5 +146,5 @@ Print Assumptions C10_combiner_never_disabled.
 Print Assumptions C10_selected_is_argmax.
 Print Assumptions C10_selected_onehot.
 Print Assumptions C10_onehot_mix.
-Print Assumptions C10_combiner_upstream_eval_soft_refuted.
+Print Assumptions C10_combiner_eval_soft_refuted.
 Print Assumptions C10_disabled_eval_stale_refuted.
